@@ -1,6 +1,20 @@
 """Per-property manifest metadata.  bin/mkmanifest renders MANIFEST.json from this."""
 
 CHECKS = {
+    "C08": dict(
+        text="The `mal` step of Trace_EzspCmd (on top of EzspCmd.tla and the header layouts of EzspCodec.tla) states what arbitrary bytes "
+             "arriving as an EZSP frame may do: nothing; drop a registration with their sequence number; reach the callbacks exactly once "
+             "only if they carry a frame ID of the active version, one value per declared field is handed over and the payload starts with "
+             "the encoding of those values; complete the pending call only under that call's own sequence number AND frame ID; never raise. "
+             "For every protocol version 4..14, with and without a pending command, the real EZSP.frame_received is fed valid responses "
+             "and callbacks of up to 12 commands mutated by truncation at every length, a byte flip at every position, frame-ID and "
+             "sequence substitution, surplus bytes, and random byte strings (120 quick / 3000 thorough per version); each run continues "
+             "with the pending call's real reply and a probe command that must complete; TLC validates each run.",
+        design_ref="3/C08",
+        note="Trusted: EzspRig (fake gateway, virtual time). 'Decodes fully' is judged by re-encoding the delivered values with the schema "
+             "types' own serialisers (TLC checks count, ID and prefix); surplus bytes after a decodable payload are tolerated.",
+        technique="TLA+ spec (EzspCmd + mal step) with TLC trace validation of systematically mutated frames fed to the implementation",
+    ),
     "C07": dict(
         text="spec/EzspCodec.tla pins which of the three header layouts each protocol version uses and the structural rules of the codec: "
              "frame IDs and names unique per version and within the layout's ID range, a call writes sequence number, frame control and ID "
